@@ -24,7 +24,7 @@ SPEC = dict(
     required=["sibling_sets", "loads_compared", "show_compared", "dry_update_compared", "bool_spelling:yes",
               "bool_spelling:on", "bool_spelling:1", "bool_spelling:TRUE", "bool_spelling:no", "glob_entries",
               "legacy_section_loads", "explicit_self_entries_with_extra_pattern", "ini_layout:inline", "ini_layout:mixed",
-              "configs_without_file_patterns_section", "ini_mixed_quoting"],
+              "configs_without_file_patterns_section", "ini_mixed_quoting", "ini_quoted_booleans"],
     anchors=[("config", "_parse_cfg"), ("config", "_parse_toml"), ("config", "_parse_config"),
              ("config", "_parse_cfg_file_patterns"), ("config", "_iter_glob_expanded_file_patterns"),
              ("config", "_parse_raw_config")],
@@ -164,7 +164,12 @@ def serialise(a, syntax, R):
             if k in a:
                 sp = R.choice(TRUE_SPELLINGS if a[k] else FALSE_SPELLINGS)
                 spelled[k] = sp
-                lines.append(f"{k} = {sp}")
+                if kind == "cfg-mixed" and R.random() < 0.4:
+                    # quotes are optional around every setup.cfg value, the booleans included
+                    lines.append(f'{k} = "{sp}"')
+                    spelled["quoted_boolean"] = 1
+                else:
+                    lines.append(f"{k} = {sp}")
         if a["entries"] or a.get("self_entry") or not a.get("omit_empty_file_patterns_section"):
             lines += ["", f"[{sect}:file_patterns]"]
         if a.get("self_entry"):
@@ -258,6 +263,8 @@ def run_case(ctx, case):
                 ctx.count("ini_" + k)
             elif k == "mixed_quoting":
                 ctx.count("ini_mixed_quoting")
+            elif k == "quoted_boolean":
+                ctx.count("ini_quoted_booleans")
             else:
                 ctx.count("bool_spelling:" + sp)
     if any("*" in key for key, _f, _p in a["entries"]):
